@@ -148,7 +148,7 @@ class Gen:
                     t = rng.choice(case["externs"])
                 b["items"].append({"k": "call", "t": t})
             elif term in ("ijmp", "icall") and isa != "arm64" and \
-                    self.knobs.get("sym_indirect") and rng.random() < 0.6:
+                    self.knobs.get("sym_indirect", True) and rng.random() < 0.5:
                 b["items"].append({"k": term + "_sym",
                                    "t": rng.choice(case["externs"])})
             else:
@@ -328,6 +328,9 @@ class Gen:
         per_block = {}     # bid -> list of (i, n, id, kind)
         edits = []
         blocks = self.all_blocks
+        if case["funcs"] and self.code_blocks and rng.random() < 0.2 and \
+                not getattr(self, "one_per_block", False):
+            self.themed_edits(edits, per_block)
         for _ in range(n * 3):
             if len(edits) >= n:
                 break
@@ -407,6 +410,60 @@ class Gen:
                               "proxy": op == "delproxy"})
         case["edits"] = edits
         return edits
+
+    def themed_edits(self, edits, per_block):
+        """2-3 modifications that all concern one function F: edits at call
+        sites of F (insertion right behind the call, deletion of the call),
+        patches that call F placed in other blocks, a returning patch inside
+        F.  The return-edge bookkeeping of the library is shared state
+        between exactly these modifications."""
+        rng, case = self.rng, self.case
+        isa = case["isa"]
+        f = rng.choice(case["funcs"])
+        fname = f["name"]
+        sites = [b for b in self.code_blocks if b["items"] and
+                 b["items"][-1].get("k") == "call" and
+                 b["items"][-1].get("t") == fname]
+        others = [b for b in self.code_blocks if b not in sites]
+        members = [b for b in self.code_blocks if b["id"] in f["blocks"]]
+        plans = []
+        for b in rng.sample(sites, min(len(sites), rng.choice([1, 1, 2]))):
+            plans.append((b, rng.choice(["after-call", "after-call",
+                                         "del-call", "before-call"])))
+        for b in rng.sample(others, min(len(others), rng.choice([1, 1, 2]))):
+            plans.append((b, "patch-calls"))
+        if members and rng.random() < 0.5:
+            plans.append((rng.choice(members), "patch-rets"))
+        rng.shuffle(plans)
+        for b, what in plans[:3]:
+            eid = len(edits)
+            n = len(b["items"])
+            mods = per_block.setdefault(b["id"], [])
+            if what == "del-call":
+                cand = (n - 1, 1, eid, "del")
+                e = {"op": "del", "b": b["id"], "i": n - 1, "n": 1,
+                     "proxy": False}
+            else:
+                i = {"after-call": n, "before-call": n - 1}.get(
+                    what, rng.randrange(0, n + 1))
+                lines = [{"k": "mark", "imm": self.mark(eid)}]
+                if what == "patch-calls":
+                    lines.append({"k": "call", "t": fname})
+                    if rng.random() < 0.5:
+                        lines.append({"k": rng.choice(ORD_KEYS)})
+                elif what == "patch-rets":
+                    lines.append({"k": "ret"})
+                else:
+                    lines.append({"k": rng.choice(ORD_KEYS)})
+                    if rng.random() < 0.3:
+                        lines.append({"k": "call", "t": fname})
+                cand = (i, 0, eid, "ins")
+                e = {"op": "ins", "b": b["id"], "i": i,
+                     "p": {"lines": lines}}
+            if not self.valid(mods + [cand], n):
+                continue
+            mods.append(cand)
+            edits.append(e)
 
     @staticmethod
     def valid(mods, nitems):
